@@ -407,6 +407,17 @@ def check(ctx):
             is_call_to(x.args[1][0], L + "so3_log") and \
             x.args[1][0].args[1][0] is tm.param("r") or \
             is_call_to(x, ".magnitude")
+        if not ang_ok and is_call_to(x, "numpy.linalg.norm") and x.args[1]:
+            # so3_log written out in place: the norm of the very rotation
+            # vector so3_log(r) returns, behind the same membership guard
+            lr = Interp(prog, assume=_single).run(
+                prog.func(L + "so3_log"), {"return_skew": const(False)})
+            rotvec = tm.select(lr.ret, lambda a: None)
+            guarded = any(
+                "LieAlgebraException" in (e.data.get("exc_name") or "") and
+                any(is_call_to(y, L + "is_so3") for y in e.live.walk())
+                for e in res.of_kind("raise"))
+            ang_ok = x.args[1][0] is rotvec and guarded
         if ang_ok and not conv and is_call_to(x, "numpy.linalg.norm"):
             # the conversion may be delegated: so3_log(r, degrees=True)
             # returns the rotation vector in degrees (|k v| = k |v|)
